@@ -677,7 +677,11 @@ class MementoFunctionHashRule(HashRule):
         # pointing to a memento function is now pointing to something else, or even undefined
         # so detect if that happened, else return `False`.
         new_fn = self.resolver()
-        return not isinstance(new_fn, MementoFunctionType)
+        if not isinstance(new_fn, MementoFunctionType):
+            return True
+        # The symbol may also have been re-bound to a different memento function (or to a
+        # newer definition of the same one)
+        return new_fn is not self.memento_fn
 
     def __repr__(self):
         return f"MementoFunctionHashRule(key={repr(self.key)})"
